@@ -81,7 +81,7 @@ def pfeat(p, spec):
     }
 
 
-def check_ir(ctx, base, replay, spec, ir, sig_names, via, cvars=()):
+def check_ir(ctx, base, replay, spec, ir, sig_names, via, cvars=(), declared=()):
     params = spec.params
     byname = {p["name"]: p for p in params}
     got = list((ir.get("params") or {}).keys())
@@ -95,16 +95,19 @@ def check_ir(ctx, base, replay, spec, ir, sig_names, via, cvars=()):
             ctx.report(dict(base, field="param", tag="extra", param=n, param_kind="unknown", expected=str(sig_names), observed=str(got)), replay)
     # class + __init__ merge: entries documented at class level come first (class docstring
     # order); the relative order of all the others must be that of the signature
-    common_e = [n for n in sig_names if n in got and n not in cvars]
-    common_o = [n for n in got if n in sig_names and n not in cvars]
+    # (attributes declared in the class body are class-level entries too: they precede __init__ in the source)
+    class_level = set(cvars) | set(declared)
+    common_e = [n for n in sig_names if n in got and n not in class_level]
+    common_o = [n for n in got if n in sig_names and n not in class_level]
     if common_e != common_o:
         first = next(a for a, b in zip(common_e, common_o) if a != b)
         ctx.report(dict(base, **pfeat(byname[first], spec), field="order", tag="reordered", param=first,
                         expected=str(common_e), observed=str(common_o)), replay)
     all_tags = {"zq_" + p["name"]: p["name"] for p in params}
-    for n in common_e:
+    for n in [m for m in sig_names if m in got and m not in cvars]:
         p, q = byname[n], ir["params"][n]
         f = pfeat(p, spec)
+        f["declared_in_class_body"] = n in declared
         idx = [x["name"] for x in params].index(n)
         f["after_doc_stated_default"] = any(x.get("doc_states_default") for x in params[:idx])
         # default
@@ -185,7 +188,8 @@ def one_class(ctx, cspec):
     spec = cspec.init
     base = {"op": OP, "kind": "class_init", "via": "ast", "fn_kind": "self", "doc_style": spec.style, "doc_mode": spec.doc_mode,
             "doc_order": spec.order, "has_doc": spec.has_doc, "partial_pos_defaults": _partial(spec)}
-    replay = {"src": cspec.src, "spec": {k: v for k, v in spec.items() if k != "src"}, "via": "class", "cvars": list(cspec.cvars)}
+    replay = {"src": cspec.src, "spec": {k: v for k, v in spec.items() if k != "src"}, "via": "class", "cvars": list(cspec.cvars),
+              "declared": list(cspec.get("declared", ()))}
     ns = exec_ns()
     exec(compile(cspec.src, "<generated>", "exec"), ns)
     sig_names = [n for n in inspect.signature(ns[cspec.name].__init__).parameters if n not in ("self", "cls")]
@@ -196,7 +200,9 @@ def one_class(ctx, cspec):
         return
     ctx.event("parse.class_merge")
     ctx.feature("class_cvars={}".format(min(len(cspec.cvars), 3)))
-    check_ir(ctx, base, replay, spec, ir, sig_names, "class_merge", cvars=tuple(cspec.cvars))
+    check_ir(ctx, base, replay, spec, ir, sig_names, "class_merge", cvars=tuple(cspec.cvars), declared=tuple(cspec.get("declared", ())))
+    if cspec.get("declared"):
+        ctx.feature("class_declares_attributes_without_value")
 
 
 def in_memory(ctx, specs, tmpdir, cspecs=()):
@@ -244,7 +250,7 @@ def in_memory(ctx, specs, tmpdir, cspecs=()):
                 continue
             ctx.event("parse.class_.in_memory")
             sig_names = [n for n in inspect.signature(cls.__init__).parameters if n not in ("self", "cls")]
-            check_ir(ctx, base, replay, spec, ir, sig_names, "memory", cvars=tuple(c.cvars))
+            check_ir(ctx, base, replay, spec, ir, sig_names, "memory", cvars=tuple(c.cvars), declared=tuple(c.get("declared", ())))
     finally:
         sys.path.remove(tmpdir)
         sys.modules.pop(modname, None)
@@ -335,7 +341,7 @@ def replay(payload):
     if "spec" in rp:
         spec = FuncSpec(rp["spec"], src=rp["src"])
         if rp.get("via") == "class":
-            one_class(ctx, FuncSpec(src=rp["src"], init=spec, name="C_target", cvars=rp.get("cvars", [])))
+            one_class(ctx, FuncSpec(src=rp["src"], init=spec, name="C_target", cvars=rp.get("cvars", []), declared=rp.get("declared", [])))
         else:
             one_function(ctx, spec)
     return ctx
